@@ -187,8 +187,40 @@ def replay(recs):
     return out
 
 
+def replay_pred_coll(recs):
+    """the predicates with more than dim + 1 arguments on collections: positions that are collinear / coplanar, positions that
+    fail at an early subset of the arguments and positions that fail only at a late one, in the same collection"""
+    g = import_geometer()
+    out = []
+    t = recs[0]["r"]["t"]
+    try:
+        n = len(recs[0]["r"]["pts"])
+        cols = [g.PointCollection(np.array([list(r["r"]["pts"][i]) + [1] for r in recs])) for i in range(n)]
+        checks = []
+        if t == "coll2":
+            lcols = [g.LineCollection(np.array([list(r["r"]["pts"][i]) + [1] for r in recs])) for i in range(n)]
+            checks = [("is_collinear(4)/collection", lambda: g.is_collinear(*cols), "b4"), ("is_collinear(3)/collection", lambda: g.is_collinear(*cols[:3]), "b3"),
+                      ("is_concurrent(4)/collection", lambda: g.is_concurrent(*lcols), "b4")]
+        else:
+            checks = [("is_coplanar(5)/collection", lambda: g.is_coplanar(*cols), "b5"), ("is_coplanar(4)/collection", lambda: g.is_coplanar(*cols[:4]), "b4")]
+        for site, fn, key in checks:
+            got = np.asarray(fn())
+            exp = np.array([r["r"][key] for r in recs])
+            if got.shape != exp.shape:
+                out.append(dict(site=site, stratum="general", case={"count": len(recs)}, expected={"shape": list(exp.shape)}, observed={"shape": list(got.shape)}))
+                continue
+            for i in np.flatnonzero(got != exp)[:2]:
+                out.append(dict(site=site, stratum=recs[i]["s"], case={"pts": recs[i]["r"]["pts"], "position": int(i), "count": len(recs)},
+                                expected=bool(exp[i]), observed=bool(got[i])))
+    except Exception as e:  # noqa: BLE001
+        out.append(dict(site=f"{t}/collection", stratum="general", case={"count": len(recs)}, expected="booleans", observed=f"raised {type(e).__name__}: {e}"))
+    return out
+
+
 def replay_coll(recs):
     """one subspace (or a collection of subspaces) against a collection of points with a MIXED on/off mask"""
+    if recs[0]["r"]["t"] in ("coll2", "copl3"):
+        return replay_pred_coll(recs)
     g = import_geometer()
     out = []
     t = recs[0]["r"]["t"]
@@ -250,7 +282,7 @@ def run(ctx: Ctx):
             raise MachineryError(f"stratum {need} never visited (vacuous)")
     ctx.log(f"{len(recs)} cases")
     jobs = [("single", recs[i:i + 300]) for i in range(0, len(recs), 300)]
-    for tt in ("c2", "c3e"):
+    for tt in ("c2", "c3e", "coll2", "copl3"):
         sel = [x for x in recs if x["r"]["t"] == tt]
         for i in range(0, len(sel), 50):
             jobs.append(("coll", sel[i:i + 50]))
